@@ -122,13 +122,13 @@ pub fn gen_e2e(r: &mut Rng, thorough: bool, cx: &mut Ctx) {
             let mut l = vec![link, own_a as u64, own_b as u64, gaps.len() as u64]; l.extend(&gaps);
             let nh = r.below(5); l.push(nh);
             for i in 0..nh { l.push(4); l.push(700 + i); l.push(r.chance(1, 3) as u64); l.push(r.chance(1, 4) as u64); l.push(match r.below(4) { 0 => 1, 1 => 2, _ => 0 }); }
-            let ne = r.range(1, 8); l.push(ne);
+            let ne = if k == 0 { 300 } else { r.range(1, 8) }; l.push(ne);      // one long history per link
             let mut prev: Option<L> = None;
             for _ in 0..ne {
                 // the same event twice in a row, now and then
                 if let Some(pe) = prev.clone() { if r.chance(1, 4) { l.push(pe.len() as u64); l.extend(pe); continue; } }
                 let kind = r.below(16);
-                let md = if r.chance(1, 40) { 2400 } else if r.chance(1, 6) { 300 } else { 24 }; let mut e = gen_event(r, kind, md);
+                let md = if k == 0 { 8 } else if r.chance(1, 40) { 2400 } else if r.chance(1, 6) { 300 } else { 24 }; let mut e = gen_event(r, kind, md);
                 // steer the receiver address: B's own address, broadcast, A's own address, or elsewhere
                 if kind != 1 && kind != 5 { e[1] = match r.below(6) { 0 | 1 | 2 => own_b as u64, 3 => 0xffff, 4 => own_a as u64, _ => r.u16b() }; }
                 l.push(e.len() as u64); l.extend(e.clone()); prev = Some(e);
